@@ -58,138 +58,7 @@ theorem inputs_filter (u : UC) : ∀ (texts : List Text) (l : Loader),
       simp only [List.filter_cons, h, Bool.false_eq_true, if_false, Loader.inputs, input_rejected u l t h]
       exact ih _
 
-/-! ### documented outcomes of the build phases -/
-
-/-- phase 1 fails only with the metamodel exception, and only on a CREATE TABLE statement -/
-theorem popClasses_error (u : UC) : ∀ (stmts : List Stmt) (s : BState) (e : BuildErr),
-    popClasses u stmts s = .error e → e = .metaErr ∧ ∃ kind attrs, Stmt.createTable kind attrs ∈ stmts := by
-  intro stmts
-  induction stmts with
-  | nil => intro s e h; simp [popClasses] at h
-  | cons st rest ih =>
-    intro s e h
-    cases st with
-    | createTable kind attrs =>
-      simp only [popClasses] at h
-      cases hd : defineClass u s kind attrs with
-      | error e' =>
-        rw [hd] at h
-        simp only [Except.error.injEq] at h; subst h
-        have he : e' = .metaErr := by
-          unfold defineClass at hd
-          split at hd
-          · simp only [Except.error.injEq] at hd; exact hd.symm
-          · split at hd
-            · simp at hd
-            · simp only [Except.error.injEq] at hd; exact hd.symm
-        exact ⟨he, kind, attrs, by simp⟩
-      | ok s' =>
-        rw [hd] at h
-        obtain ⟨h1, k, a, hm⟩ := ih s' e h
-        exact ⟨h1, k, a, by simp [hm]⟩
-    | createRop _ _ _ _ _ _ _ _ _ =>
-      simp only [popClasses] at h
-      obtain ⟨h1, k, a, hm⟩ := ih s e h
-      exact ⟨h1, k, a, by simp [hm]⟩
-    | createIndex _ _ _ =>
-      simp only [popClasses] at h
-      obtain ⟨h1, k, a, hm⟩ := ih s e h
-      exact ⟨h1, k, a, by simp [hm]⟩
-    | insert _ _ _ =>
-      simp only [popClasses] at h
-      obtain ⟨h1, k, a, hm⟩ := ih s e h
-      exact ⟨h1, k, a, by simp [hm]⟩
-
-/-- phase 2 fails only with the metamodel exception, and only on a CREATE UNIQUE INDEX with attributes -/
-theorem popIdents_error (u : UC) : ∀ (stmts : List Stmt) (s : BState) (e : BuildErr),
-    popIdents u stmts s = .error e →
-      e = .metaErr ∧ ∃ kind name attrs, Stmt.createIndex kind name attrs ∈ stmts ∧ attrs ≠ [] := by
-  intro stmts
-  induction stmts with
-  | nil => intro s e h; simp [popIdents] at h
-  | cons st rest ih =>
-    intro s e h
-    cases st with
-    | createIndex kind name attrs =>
-      simp only [popIdents] at h
-      split at h
-      · obtain ⟨h1, k, n, a, hm, hne⟩ := ih s e h
-        exact ⟨h1, k, n, a, by simp [hm], hne⟩
-      · rename_i hne
-        split at h
-        · simp only [Except.error.injEq] at h; subst h
-          exact ⟨rfl, kind, name, attrs, by simp, by intro ha; subst ha; simp at hne⟩
-        · obtain ⟨h1, k, n, a, hm, hne'⟩ := ih _ e h
-          exact ⟨h1, k, n, a, by simp [hm], hne'⟩
-    | createTable _ _ =>
-      simp only [popIdents] at h
-      obtain ⟨h1, k, n, a, hm, hne⟩ := ih s e h
-      exact ⟨h1, k, n, a, by simp [hm], hne⟩
-    | createRop _ _ _ _ _ _ _ _ _ =>
-      simp only [popIdents] at h
-      obtain ⟨h1, k, n, a, hm, hne⟩ := ih s e h
-      exact ⟨h1, k, n, a, by simp [hm], hne⟩
-    | insert _ _ _ =>
-      simp only [popIdents] at h
-      obtain ⟨h1, k, n, a, hm, hne⟩ := ih s e h
-      exact ⟨h1, k, n, a, by simp [hm], hne⟩
-
-/-- phase 3 fails only with the metamodel exception, and only on a CREATE ROP statement -/
-theorem popAssocs_error (u : UC) : ∀ (stmts : List Stmt) (s : BState) (e : BuildErr),
-    popAssocs u stmts s = .error e →
-      e = .metaErr ∧ ∃ rel sk sc sks sp tk tc tks tp, Stmt.createRop rel sk sc sks sp tk tc tks tp ∈ stmts := by
-  intro stmts
-  induction stmts with
-  | nil => intro s e h; simp [popAssocs] at h
-  | cons st rest ih =>
-    intro s e h
-    cases st with
-    | createRop rel sk sc sks sp tk tc tks tp =>
-      simp only [popAssocs] at h
-      split at h
-      · split at h
-        · simp only [Except.error.injEq] at h; subst h
-          exact ⟨rfl, rel, sk, sc, sks, sp, tk, tc, tks, tp, by simp⟩
-        · split at h
-          · obtain ⟨h1, hm⟩ := ih _ e h
-            obtain ⟨a, b, c, d, e', f, g, i, j, hm⟩ := hm
-            exact ⟨h1, a, b, c, d, e', f, g, i, j, by simp [hm]⟩
-          · simp only [Except.error.injEq] at h; subst h
-            exact ⟨rfl, rel, sk, sc, sks, sp, tk, tc, tks, tp, by simp⟩
-      · simp only [Except.error.injEq] at h; subst h
-        exact ⟨rfl, rel, sk, sc, sks, sp, tk, tc, tks, tp, by simp⟩
-    | createTable _ _ =>
-      simp only [popAssocs] at h
-      obtain ⟨h1, a, b, c, d, e', f, g, i, j, hm⟩ := ih s e h
-      exact ⟨h1, a, b, c, d, e', f, g, i, j, by simp [hm]⟩
-    | createIndex _ _ _ =>
-      simp only [popAssocs] at h
-      obtain ⟨h1, a, b, c, d, e', f, g, i, j, hm⟩ := ih s e h
-      exact ⟨h1, a, b, c, d, e', f, g, i, j, by simp [hm]⟩
-    | insert _ _ _ =>
-      simp only [popAssocs] at h
-      obtain ⟨h1, a, b, c, d, e', f, g, i, j, hm⟩ := ih s e h
-      exact ⟨h1, a, b, c, d, e', f, g, i, j, by simp [hm]⟩
-
-/-- phase 4 fails only on an INSERT statement -/
-theorem popInstances_error (u : UC) : ∀ (stmts : List Stmt) (s : BState) (e : BuildErr),
-    popInstances u stmts s = .error e → ∃ kind values names, Stmt.insert kind values names ∈ stmts := by
-  intro stmts
-  induction stmts with
-  | nil => intro s e h; simp [popInstances] at h
-  | cons st rest ih =>
-    intro s e h
-    cases st with
-    | insert kind values names => exact ⟨kind, values, names, by simp⟩
-    | createTable _ _ =>
-      simp only [popInstances] at h
-      obtain ⟨a, b, c, hm⟩ := ih s e h; exact ⟨a, b, c, by simp [hm]⟩
-    | createIndex _ _ _ =>
-      simp only [popInstances] at h
-      obtain ⟨a, b, c, hm⟩ := ih s e h; exact ⟨a, b, c, by simp [hm]⟩
-    | createRop _ _ _ _ _ _ _ _ _ =>
-      simp only [popInstances] at h
-      obtain ⟨a, b, c, hm⟩ := ih s e h; exact ⟨a, b, c, by simp [hm]⟩
+/-! ### why the cells of one INSERT cannot be read (the phase-level causes: Proofs/SqlBuildCause.lean) -/
 
 theorem positionalCells_error (u : UC) (c : ClassB) : ∀ (attrs : List (Name × Name)) (values : List Text) (e : BuildErr),
     positionalCells u c attrs values = .error e →
@@ -287,162 +156,5 @@ theorem newRowOk_false (u : UC) (c : ClassB) (h : newRowOk u c = false) :
   refine ⟨a, ha, ?_⟩
   simp only [Bool.or_eq_true, not_or, Bool.not_eq_true, Option.isSome_eq_false_iff, Option.isNone_iff_eq_none] at hx
   exact hx
-
-/-- why one INSERT statement fails: the parsing exception for an arity mismatch of a named INSERT or a value that
-    `deserialize_value` cannot read for the type of its column; the metamodel exception for a (non-referential)
-    attribute whose type `default_value` does not know, or for a named INSERT into an undeclared class two of whose
-    names coincide after upper-casing.  `c` is the class of the statement's kind, declared or inferred. -/
-theorem popInstance_error (u : UC) (s : BState) (kind : Name) (values : List Text) (names : Option (List Name)) (e : BuildErr)
-    (h : popInstance u s kind values names = .error e) :
-    (e = .parseErr ∧ ((∃ ns, names = some ns ∧ ns ≠ [] ∧ ns.length ≠ values.length) ∨
-        ∃ c : ClassB, ∃ a ∈ c.attrs, ∃ v ∈ values, deserialize u a.2 v = none)) ∨
-    (e = .metaErr ∧ ((∃ c : ClassB, ∃ a ∈ c.attrs, c.referential.contains a.1 = false ∧ tyOfName u a.2 = none) ∨
-        (∃ ns, names = some ns ∧ ns ≠ [] ∧ s.find? u kind = none ∧ attrNamesOk u (inferredAttrs u ns values) = false))) := by
-  unfold popInstance at h
-  by_cases hmis : (isNamed names && (names.getD []).length != values.length) = true
-  · simp only [hmis, if_true, Except.error.injEq] at h; subst h
-    left; refine ⟨rfl, Or.inl ?_⟩
-    simp only [Bool.and_eq_true, bne_iff_ne, ne_eq] at hmis
-    obtain ⟨hnamed, hne⟩ := hmis
-    cases names with
-    | none => simp [isNamed] at hnamed
-    | some ns =>
-      cases ns with
-      | nil => simp [isNamed] at hnamed
-      | cons n ns' => exact ⟨n :: ns', rfl, by simp, by simpa using hne⟩
-  · simp only [hmis, Bool.false_eq_true, if_false] at h
-    by_cases hinf : inferOk u s kind (isNamed names) (names.getD []) values = true
-    case neg =>
-      simp only [hinf, Bool.not_false, if_true, Except.error.injEq] at h; subst h
-      right; refine ⟨rfl, Or.inr ?_⟩
-      cases names with
-      | none => exact absurd (inferOk_positional u s kind _ values) (by simpa [isNamed] using hinf)
-      | some ns =>
-        cases ns with
-        | nil => exact absurd (inferOk_positional u s kind _ values) (by simpa [isNamed] using hinf)
-        | cons n ns' =>
-          refine ⟨n :: ns', rfl, by simp, ?_⟩
-          simp only [isNamed, Option.getD_some] at hinf
-          unfold inferOk at hinf
-          cases hs : s.find? u kind with
-          | some c => simp [hs] at hinf
-          | none =>
-            rw [hs] at hinf
-            simp only [inferredFor, if_true] at hinf
-            exact ⟨rfl, by simpa using hinf⟩
-    simp only [hinf, Bool.not_true, Bool.false_eq_true, if_false] at h
-    cases hfind : (ensureClass u s kind (isNamed names) (names.getD []) values).find? u kind with
-    | none =>
-      exfalso
-      unfold ensureClass at hfind
-      cases hs : s.find? u kind with
-      | some c => simp [hs] at hfind
-      | none =>
-        rw [hs] at hfind
-        simp only [BState.find?, List.find?_append] at hfind
-        simp at hfind
-    | some c =>
-      rw [hfind] at h
-      simp only at h
-      by_cases hrow : (!newRowOk u c) = true
-      · simp only [hrow, if_true, Except.error.injEq] at h; subst h
-        right
-        obtain ⟨a, ha, h1, h2⟩ := newRowOk_false u c (by simpa using hrow)
-        exact ⟨rfl, Or.inl ⟨c, a, ha, h1, h2⟩⟩
-      · simp only [hrow, Bool.false_eq_true, if_false] at h
-        cases hcells : cellsOf u c (isNamed names) (names.getD []) values with
-        | ok cells => rw [hcells] at h; simp at h
-        | error e' =>
-          rw [hcells] at h
-          simp only [Except.error.injEq] at h; subst h
-          left
-          unfold cellsOf at hcells
-          by_cases hnamed : isNamed names = true
-          · simp only [hnamed, if_true] at hcells
-            have hlen : (names.getD []).length = values.length := by
-              simp only [hnamed, Bool.true_and, bne_iff_ne, ne_eq, Decidable.not_not] at hmis
-              exact hmis
-            obtain ⟨h1, a, ha, v, hv, hd⟩ := namedCells_error u _ values hlen c.attrs e' hcells
-            exact ⟨h1, Or.inr ⟨c, a, ha, v, hv, hd⟩⟩
-          · simp only [hnamed, Bool.false_eq_true, if_false] at hcells
-            obtain ⟨h1, a, ha, v, hv, hd⟩ := positionalCells_error u c c.attrs values e' hcells
-            exact ⟨h1, Or.inr ⟨c, a, ha, v, hv, hd⟩⟩
-
-/-- phase 4 fails on some INSERT statement, in some state reached before it -/
-theorem popInstances_witness (u : UC) : ∀ (stmts : List Stmt) (s : BState) (e : BuildErr),
-    popInstances u stmts s = .error e →
-      ∃ kind values names s', Stmt.insert kind values names ∈ stmts ∧ popInstance u s' kind values names = .error e := by
-  intro stmts
-  induction stmts with
-  | nil => intro s e h; simp [popInstances] at h
-  | cons st rest ih =>
-    intro s e h
-    cases st with
-    | insert kind values names =>
-      simp only [popInstances] at h
-      cases hp : popInstance u s kind values names with
-      | error e' =>
-        rw [hp] at h; simp only [Except.error.injEq] at h; subst h
-        exact ⟨kind, values, names, s, by simp, hp⟩
-      | ok s' =>
-        rw [hp] at h
-        obtain ⟨k, v, n, s'', hm, hq⟩ := ih s' e h
-        exact ⟨k, v, n, s'', by simp [hm], hq⟩
-    | createTable _ _ =>
-      simp only [popInstances] at h
-      obtain ⟨k, v, n, s'', hm, hq⟩ := ih s e h; exact ⟨k, v, n, s'', by simp [hm], hq⟩
-    | createIndex _ _ _ =>
-      simp only [popInstances] at h
-      obtain ⟨k, v, n, s'', hm, hq⟩ := ih s e h; exact ⟨k, v, n, s'', by simp [hm], hq⟩
-    | createRop _ _ _ _ _ _ _ _ _ =>
-      simp only [popInstances] at h
-      obtain ⟨k, v, n, s'', hm, hq⟩ := ih s e h; exact ⟨k, v, n, s'', by simp [hm], hq⟩
-
-/-- the documented causes of the metamodel exception -/
-def MetaCause (u : UC) (stmts : List Stmt) : Prop :=
-  (∃ kind attrs, Stmt.createTable kind attrs ∈ stmts) ∨
-  (∃ kind name attrs, Stmt.createIndex kind name attrs ∈ stmts ∧ attrs ≠ []) ∨
-  (∃ rel sk sc sks sp tk tc tks tp, Stmt.createRop rel sk sc sks sp tk tc tks tp ∈ stmts) ∨
-  (∃ kind values names, Stmt.insert kind values names ∈ stmts ∧
-    ((∃ c : ClassB, ∃ a ∈ c.attrs, c.referential.contains a.1 = false ∧ tyOfName u a.2 = none) ∨
-     (∃ ns, names = some ns ∧ ns ≠ [] ∧ attrNamesOk u (inferredAttrs u ns values) = false)))
-
-/-- the documented causes of the parsing exception during a build -/
-def ParseCause (u : UC) (stmts : List Stmt) : Prop :=
-  ∃ kind values names, Stmt.insert kind values names ∈ stmts ∧
-    ((∃ ns, names = some ns ∧ ns ≠ [] ∧ ns.length ≠ values.length) ∨
-      ∃ c : ClassB, ∃ a ∈ c.attrs, ∃ v ∈ values, deserialize u a.2 v = none)
-
-theorem build_error_cause (u : UC) (stmts : List Stmt) (e : BuildErr) (h : build u stmts = .error e) :
-    (e = .metaErr ∧ MetaCause u stmts) ∨ (e = .parseErr ∧ ParseCause u stmts) := by
-  unfold build at h
-  cases h1 : popClasses u stmts BState.empty with
-  | error e1 =>
-    rw [h1] at h; simp only [Except.error.injEq] at h; subst h
-    obtain ⟨he, k, a, hm⟩ := popClasses_error u stmts _ e1 h1
-    exact Or.inl ⟨he, Or.inl ⟨k, a, hm⟩⟩
-  | ok s1 =>
-    rw [h1] at h; simp only at h
-    cases h2 : popIdents u stmts s1 with
-    | error e2 =>
-      rw [h2] at h; simp only [Except.error.injEq] at h; subst h
-      obtain ⟨he, k, n, a, hm, hne⟩ := popIdents_error u stmts _ e2 h2
-      exact Or.inl ⟨he, Or.inr (Or.inl ⟨k, n, a, hm, hne⟩)⟩
-    | ok s2 =>
-      rw [h2] at h; simp only at h
-      cases h3 : popAssocs u stmts s2 with
-      | error e3 =>
-        rw [h3] at h; simp only [Except.error.injEq] at h; subst h
-        obtain ⟨he, hw⟩ := popAssocs_error u stmts _ e3 h3
-        exact Or.inl ⟨he, Or.inr (Or.inr (Or.inl hw))⟩
-      | ok s3 =>
-        rw [h3] at h; simp only at h
-        obtain ⟨k, v, n, s', hm, hp⟩ := popInstances_witness u stmts s3 e h
-        rcases popInstance_error u s' k v n e hp with ⟨he, hc⟩ | ⟨he, hc⟩
-        · exact Or.inr ⟨he, k, v, n, hm, hc⟩
-        · refine Or.inl ⟨he, Or.inr (Or.inr (Or.inr ⟨k, v, n, hm, ?_⟩))⟩
-          rcases hc with hc | ⟨ns, h1, h2, _, h4⟩
-          · exact Or.inl hc
-          · exact Or.inr ⟨ns, h1, h2, h4⟩
 
 end Pyx.Sql
